@@ -37,7 +37,6 @@ pub fn any_pre_of(p: BPos) -> (Pre, Game) {
     g.plies = plies;
     // one earlier entry with arbitrary content; capacity reserved so that pushes never reallocate
     // (Vec growth is std's business and only inflates the formula)
-    g.history = Vec::with_capacity(4);
     g.history.push(History {
         mv: { let w: u16 = kani::any(); if w == 0 { None } else { Some(move_of(w)) } },
         captured: None,
